@@ -23,6 +23,22 @@ import (
 
 const root = "/verif"
 
+// evidenceDir / replayDir can be redirected (used when a check is run against a scratch copy of the repository,
+// so that such runs never overwrite the committed evidence).
+func evidenceDir() string {
+	if d := os.Getenv("VERIF_EVIDENCE_DIR"); d != "" {
+		return d
+	}
+	return filepath.Join(root, "evidence")
+}
+
+func replayDir() string {
+	if d := os.Getenv("VERIF_REPLAY_DIR"); d != "" {
+		return d
+	}
+	return filepath.Join(root, "replay")
+}
+
 func seed() int64 {
 	s, _ := strconv.ParseInt(os.Getenv("VERIF_SEED"), 10, 64)
 	return s
@@ -199,7 +215,7 @@ func run(id, tier string) int {
 	seenKnown := map[string]bool{}
 	reported := map[string]bool{}
 	nviol := 0
-	os.MkdirAll(filepath.Join(root, "replay"), 0o755)
+	os.MkdirAll(replayDir(), 0o755)
 	var knownSeen []string
 	for _, v := range total.Violations {
 		if k := core.MatchKnown(known, id, v.Finding); k != nil {
@@ -238,7 +254,7 @@ func run(id, tier string) int {
 		nviol++
 		rf := core.ReplayFile{Property: id, Tier: tier, Seed: seed(), Finding: v.Finding, Case: v.Case, Detail: v.Detail, Inputs: v.Inputs,
 			How: "cd /verif && ./run.sh replay <this file>"}
-		p := filepath.Join(root, "replay", fmt.Sprintf("%s-%s.json", id, core.Hash12(v.Finding+"|"+v.Case)))
+		p := filepath.Join(replayDir(), fmt.Sprintf("%s-%s.json", id, core.Hash12(v.Finding+"|"+v.Case)))
 		b, _ := json.MarshalIndent(rf, "", " ")
 		os.WriteFile(p, b, 0o644)
 		fmt.Printf("VIOLATION property=%s replay=%s\n", id, p)
@@ -285,9 +301,9 @@ func run(id, tier string) int {
 	}
 	ev := core.Evidence{PropertyID: id, Tier: tier, Seed: seed(), Level: "model_checking", Coverage: cov,
 		Assumptions: ck.Assumptions, WallS: time.Since(start).Seconds(), Violations: nviol}
-	os.MkdirAll(filepath.Join(root, "evidence"), 0o755)
+	os.MkdirAll(evidenceDir(), 0o755)
 	b, _ := json.MarshalIndent(ev, "", " ")
-	if err := os.WriteFile(filepath.Join(root, "evidence", id+".json"), b, 0o644); err != nil {
+	if err := os.WriteFile(filepath.Join(evidenceDir(), id+".json"), b, 0o644); err != nil {
 		fmt.Fprintln(os.Stderr, err)
 		return 2
 	}
